@@ -34,6 +34,8 @@ def _env(seed=None, extra=None):
 def classify(c, m):
     if c == m:
         return "same"
+    if c == "TMUT ok" and m.startswith("TMUT ok "):      # the model adds its own verdict / hwloc's load status (statistics only)
+        return "same"
     if m == "FIX ok-modulo-support" and EXCLUDE_SUPPORT_SECTION_WHEN_NOT_IMPORTED:
         return "known:support-section"
     if m in ("EQ memsets", "FIX memsets") and EXCLUDE_MEMORY_CHILD_SETS_NORMALISED_ON_LOAD:
@@ -62,6 +64,12 @@ def split(ops, cl, ml):
             cur["verdicts"].append(m)
         if o.startswith("OBJ "):
             cur["nobj"] = cur.get("nobj", 0) + 1
+        if o == "TJ":
+            cur["ntree"] = cur.get("ntree", 0) + 1
+        if o.startswith("TM "):
+            cur.setdefault("muts", []).append(o.split()[1] + ":" + (m[8:] if m.startswith("TMUT ok ") else "FAIL"))
+        if o.startswith("TO "):
+            cur["ntreeobj"] = cur.get("ntreeobj", 0) + 1
         if o.startswith("CRASH"):
             cur["crash"] = True        # also when a modifying call of the history itself aborts before the export
         if o.startswith("KNOWN "):
@@ -109,7 +117,7 @@ def annotate(binp, d, script, env=None):
     for i, l in enumerate(o):
         if l.startswith("OBJ ") and i < len(c) and i < len(m) and classify(c[i], m[i]) != "diff":
             continue
-        if l.startswith(("CMP", "FIX", "CRASH", "LOADFAIL", "OBJ ")) or l.startswith(UNIT):
+        if l.startswith(("CMP", "FIX", "CRASH", "LOADFAIL", "OBJ ")) or l == "TJ" or l.startswith("TM ") or l.startswith(UNIT):
             ci = c[i] if i < len(c) else "<none>"
             mi = m[i] if i < len(m) else "<none>"
             out.append("#   %s | %s | %s%s" % (l[:1500], ci[:300], mi[:400], "" if classify(ci, mi) != "diff" else "   <== DIFFERS"))
@@ -195,6 +203,13 @@ def run_engine(tier, seed):
             if cs.get("nobj"):
                 bump("object-level.start-tags", cs["nobj"])
                 njudged += cs["nobj"]
+            if cs.get("ntree"):
+                bump("tree-level.trees", cs["ntree"])
+                bump("tree-level.objects", cs.get("ntreeobj", 0))
+                njudged += cs["ntree"]
+            for mu in cs.get("muts", []):
+                bump("tree-level.mutated-document." + mu)
+                njudged += 1
             if not cs["verdicts"]:
                 bump("not-loaded")
             distinct.add(hashlib.md5("\n".join(cs["script"]).encode()).digest()[:8])
@@ -233,5 +248,8 @@ def run_engine(tier, seed):
                     "kind 0, memattr values, cpukinds with infos, allow, userdata of lengths 0..9 plain and base64) x export backend x "
                     "import backend x {buffer, file} x {v3, v2}; each yields a CMP verdict (TopoEquiv + canonical lines) and a FIX verdict "
                     "(second export byte-identical) and, for v3 nolibxml exports, OBJ verdicts on sampled objects (scanned start tag = exportAttrs of the "
-                    "object, importAttrs of it = the reloaded object); a unit case = one call of the escaper / attribute scanner / base64 encoder / decoder / "
+                    "object, importAttrs of it = the reloaded object) and, for topologies of at most 160 objects, one TREE verdict (element tree of the real "
+                    "export = exportTree of the original object tree, which is TreeValid; importTree of it = normTree of the original = the reloaded tree) and 4 TMUT verdicts (the export text with a subtree moved / a "
+                    "page_type, info or unknown element inserted / an object retyped is loaded by hwloc and imported by the model: a document the model "
+                    "rejects must not load); a unit case = one call of the escaper / attribute scanner / base64 encoder / decoder / "
                     "number conversion compared byte for byte with the model; distinct = distinct (script) or (unit call, C result)"}
